@@ -12,6 +12,7 @@
 package main
 
 import (
+	"context"
 	"bufio"
 	"bytes"
 	"encoding/hex"
@@ -712,7 +713,8 @@ func run(p, c int, f func() string) {
 
 `)
 		file.Write(batch.Bytes())
-		file.WriteString("func main() {\n\tdefer out.Flush()\n")
+		// hard stop: an oracle process never outlives its run (an abandoned call may spin; a killed parent would orphan it)
+		file.WriteString("func main() {\n\tdefer out.Flush()\n\ttime.AfterFunc(180*time.Second, func() { os.Exit(0) })\n")
 		for _, m := range mains {
 			file.WriteString(m)
 		}
@@ -733,9 +735,11 @@ func run(p, c int, f func() string) {
 		if outb, err := build.CombinedOutput(); err != nil {
 			oracleErr = "go build: " + err.Error() + ": " + string(outb)
 		} else {
-			runc := exec.Command(filepath.Join(dir, "oracle.bin"))
+			octx, ocancel := context.WithTimeout(context.Background(), 240*time.Second)
+			runc := exec.CommandContext(octx, filepath.Join(dir, "oracle.bin"))
 			runc.Dir = dir
 			outb, err := runc.Output()
+			ocancel()
 			if err != nil {
 				oracleErr = "oracle run: " + err.Error()
 			}
